@@ -632,6 +632,13 @@ pub(crate) async fn fashare(
 
     // 3 b) Pi broadcasts decommitment for macs.
     let mut dm_k = broadcast(channel, i, n, "fashare ver", &dmvec).await?;
+    // Every decommitment consists of the bit and one MAC per other party. The length of the
+    // inner vectors is chosen by the sender and indexed below.
+    for k in (0..n).filter(|k| *k != i) {
+        if dm_k[k].iter().any(|dm| dm.len() != 1 + (n - 1) * 16) {
+            return Err(Error::InvalidLength);
+        }
+    }
     dm_k[i] = dmvec;
 
     // 3 c) Compute bi to determine di_bi and send to all parties.
@@ -1134,6 +1141,11 @@ async fn check_dvalue(
         let dvalues_macs_k = &dvalues_macs_all[k];
         for (j, dval) in d_values.iter_mut().enumerate().take(len) {
             let (d_value_p, d_macs_p) = &dvalues_macs_k[j];
+            // One d-value and one MAC per combined pair of the bucket: with fewer, the loop
+            // below would skip the MAC check (and the d-value) for the missing ones.
+            if d_value_p.len() != dval.len() || d_macs_p.len() != dval.len() {
+                return Err(Error::InvalidLength);
+            }
             let (_, y0key) = buckets[j][0].1.1.0[k];
             for (m, (d, dmac)) in dval.iter_mut().zip(d_macs_p).enumerate() {
                 let (_, ykey) = buckets[j][m + 1].1.1.0[k];
